@@ -234,7 +234,7 @@ PROPS["C01"] = {
     "lean": ["Gonuts.Props.C01", "Gonuts.Tie.Mint"],
     "streams": ["mint-seq", "mint-mon", "mint-sched"],
     "thorough_shards": {"mint-seq": 4, "mint-mon": 4, "mint-sched": 8},
-    "quick_shards": {"mint-sched": 3},
+    "quick_shards": {"mint-sched": 3, "mint-seq": 2, "mint-mon": 3},
     "level": "proof",
     "technique": "Lean 4 invariants over an executable small-step model of the mint (effect-level for all schedules/crashes/faults; by induction over sequential histories) + differential correspondence and model-free double-spend monitors against the real mint",
     "design_ref": "DESIGN.md §4.1, §5 C01",
@@ -250,7 +250,7 @@ def mint_prop(pid, title, lean, text, extra_note="", streams=("mint-seq", "mint-
         "lean": lean + ["Gonuts.Tie.Mint"],
         "streams": list(streams),
         "thorough_shards": dict({"mint-seq": 4, "mint-mon": 4}, **(shards or {})),
-        "quick_shards": dict(qshards or {}),
+        "quick_shards": dict({"mint-seq": 2, "mint-mon": 3}, **(qshards or {})),
         "level": "proof",
         "technique": "Lean 4 theorems over an executable small-step model of the mint (refinement of each operation to closed case tables, invariants by induction over sequential histories, effect-level invariants for all schedules/crashes/faults) + differential correspondence and model-free property monitors against the real mint",
         "design_ref": design + pid,
